@@ -412,6 +412,8 @@ class Alg:
         if at.startswith('inv('):
             b = self.inverse.get(at)
             return b is not None and self._nonneg(b)
+        if at in getattr(self, 'nonneg', ()):
+            return True
         v = self.numeric.get(at)
         return v is not None and v > 0
 
